@@ -174,6 +174,8 @@ def _tags(steps):
                     cur = cur + ['M206']
             if s.tested == 'unsupported' and 'arc-in-relative-mode' not in cur:
                 cur = cur + ['arc-in-relative-mode']
+            if c is not None and c.code in ('G2', 'G3') and s.tested is None and 'degenerate-arc' not in cur:
+                cur = cur + ['degenerate-arc']
         s.tags = cur
 
 
